@@ -1,17 +1,18 @@
 #!/bin/bash
-# usage: validate_mutant.sh <worktree-with-mutant-applied>
-# confirms: suite passes with the change; demo fails with it and passes without it
+# usage: validate_mutant.sh <worktree-with-MUTANT.diff-and-tests/mutant_demo.rs>
+# confirms: existing suite passes with the change; demo fails with it and passes without it.
+# (uses git apply / apply -R, not git stash: stashes are shared between worktrees)
 set -u
 D=$1
 cd "$D" || exit 2
 export CARGO_NET_OFFLINE=true
+git checkout -q -- src && git apply MUTANT.diff || { echo "MUTANT.diff does not apply"; exit 2; }
 echo "== suite with mutant"
 cargo test --offline --no-fail-fast 2>&1 | grep -E "^test result|FAILED|panicked|Running" | head -30
 echo "== demo with mutant (expected to FAIL)"
-timeout 600 cargo test --offline --test mutant_demo 2>&1 | grep -E "^test result|FAILED|panicked|test .* \.\.\." | head -10
-echo "rc_with=$?"
-git stash push -q -- src
+timeout 900 cargo test --offline --test mutant_demo 2>&1 | grep -E "^test result|FAILED|panicked|test .* \.\.\." | head -12
+git apply -R MUTANT.diff
 echo "== demo without mutant (expected to PASS)"
-timeout 600 cargo test --offline --test mutant_demo 2>&1 | grep -E "^test result|FAILED|panicked" | head -10
-git stash pop -q
+timeout 900 cargo test --offline --test mutant_demo 2>&1 | grep -E "^test result|FAILED|panicked" | head -10
+git apply MUTANT.diff
 git diff --stat -- src | tail -1
